@@ -377,13 +377,18 @@ def recording(events):
         return o_end(self, state, cur_frame)
 
     SC = A._SymbolCreator
-    o_pre = SC._precreate_label
+    o_pre = getattr(SC, "_precreate_label", None)
 
     def _precreate_label(self, parser_state, label):
         events.append({"ev": "pre", "name": label.name})
         return o_pre(self, parser_state, label)
 
-    SC._precreate_label = _precreate_label
+    if o_pre is not None:
+        SC._precreate_label = _precreate_label
+    else:
+        # the observation point is gone (renamed or restructured): the event stream lacks the label pre-creations, which
+        # shows as a broken correspondence, and the direct oracles still run
+        events.append({"ev": "hook-missing", "name": "_SymbolCreator._precreate_label"})
     names = dict(emit_label=emit_label, change_section=change_section, emit_instruction=emit_instruction,
                  emit_value_impl=emit_value_impl, emit_bytes=emit_bytes, emit_value_fill=emit_value_fill,
                  _emit_alignment=_emit_alignment, _emit_value_with_encoding=_emit_value_with_encoding,
@@ -395,7 +400,8 @@ def recording(events):
     try:
         yield
     finally:
-        SC._precreate_label = o_pre
+        if o_pre is not None:
+            SC._precreate_label = o_pre
         for k, v in saved.items():
             setattr(S, k, v)
 
